@@ -52,7 +52,7 @@ Definition open_handle (w : world) (h : Z) (o : opener) : world :=
 
 (* ------------------------------------------------------------------ histories of openings and appends *)
 Section HandleHistories.
-  Variable conv : atype -> pyval -> option pyval.
+  Variable conv : catype -> pyval -> option pyval.
 
   Inductive hevent :=
   | HOpen (h : Z) (o : opener)
